@@ -191,6 +191,9 @@ impl<'a> System for SysA<'a> {
     }
     fn step(&self, _cfg: &Cfg, st: &mut St, op: &Op, out: Option<&mut Out>) {
         let _ = apply(&mut st.vt, op);
+        // dump() is read after every step of every history (and thrown away): what it says at
+        // the state under test must not depend on having been asked before
+        let _ = st.vt.dump();
         ghost_text(st, &op.text);
         if let Some(out) = out {
             out.obs_hash = Some(crate::obs::hash_obs(&obs(&st.vt)));
